@@ -4,7 +4,7 @@ from __future__ import annotations
 import os
 import typing as ty
 
-from pydra.compose import python
+from pydra.compose import python, workflow
 
 
 @python.define
@@ -45,3 +45,12 @@ def read_log(path) -> list:
         return []
     with open(path) as f:
         return [json.loads(line) for line in f if line.strip()]
+
+
+@workflow.define
+def CombineWF(spl: ty.Any, comb: ty.Any, consts: ty.Any, lists: ty.Any) -> ty.Any:
+    """Split+combined Tag node feeding an identity node; everything arrives as input *values*
+    (no closure), so the workflow-construction cache keys on them."""
+    n = workflow.add(Tag(**consts).split(spl, **lists).combine(comb), name="N")
+    i = workflow.add(Ident(a=n.out), name="I")
+    return i.out
